@@ -24,8 +24,10 @@ pub fn flush(addr: VirtAddr) {
 #[inline]
 pub fn flush_all() {
     use crate::registers::control::Cr3;
-    let (frame, flags) = Cr3::read();
-    unsafe { Cr3::write(frame, flags) }
+    // Use the raw value so that the low 12 bits (the PCID when CR4.PCIDE is set) are
+    // written back unchanged.
+    let (frame, value) = Cr3::read_raw();
+    unsafe { Cr3::write_raw(frame, value) }
 }
 
 /// The Invalidate PCID Command to execute.
